@@ -10,7 +10,8 @@ d=$(mktemp -d /tmp/seedtest.XXXXXX); rmdir "$d"
 "$V/tools/mkseedtree.sh" "$d" >/dev/null || exit 2
 trap 'git -C /repo worktree remove --force "$d" 2>/dev/null; rm -rf "$d" "$out"' EXIT
 out=$(mktemp -d /tmp/seedtest-out.XXXXXX)
-if ! git -C "$d" apply "$patch"; then echo "patch does not apply"; exit 2; fi
+# the change was written against an earlier HEAD: fall back to patch(1) with fuzz, when later fix commits moved the context
+if ! git -C "$d" apply "$patch" 2>/dev/null && ! ( cd "$d" && patch -p1 --fuzz=3 -s < "$patch" >/dev/null 2>&1 ); then echo "patch does not apply"; exit 2; fi
 for p in "$@"; do
   ( cd "$V" && VERIF_REPO="$d" VERIF_ALT_OUT="$out" timeout 3000 ./check "$p" "$tier" > "$out/$p.log" 2>&1; echo "$p exit=$? $(grep -c '^VIOLATION' "$out/$p.log") violation line(s): $(grep '^VIOLATION' "$out/$p.log" | head -3 | tr '\n' ' ')"
     for r in $(grep -o 'replay=[^ ]*' "$out/$p.log" | cut -d= -f2 | head -2); do python3 - "$r" <<'PY'
